@@ -40,7 +40,7 @@ pub fn defs() -> Vec<CheckDef> {
         mk("C02", "reduced F-cfg skeletons (size <= S) x action-style assignments (named / anonymous / <> / <X> selections / mut / default actions; plus, per non-pub nonterminal, a `()`-typed variant and a tuple-valued variant without actions bound by `<(a, b):N>` patterns), rotated diagonally through each alternative's style menu (thorough: more rotations), compiled with both backends, all inputs <= n; oracle: value string and action log computed by sem over the unique derivation tree. distinct_nontrivial = accepted (grammar, input) pairs whose tree has >= 2 nodes with user actions", "accepted_multi_action", &["parses", "accepted", "accepted_multi_action", "default_action_nodes", "tuple_default_nodes", "unit_default_nodes"], run_c02),
         mk("C06", "skeletons with @L/@R marks at every gap layout (all-@L, all-@R, <l:@L>..<r:@R>, alternating) x inline subsets, both backends, gapped token spans (10i+3,10i+7); oracle: sem location rules. distinct_nontrivial = accepted pairs whose tree has an empty derivation, a mark fallback or an inlined node", "accepted_nontrivial_loc", &["parses", "accepted", "accepted_nontrivial_loc"], run_c06),
         mk("C07", "unit, value-building, location-capturing and fallible renderings of the skeletons, each compiled table-driven and recursive-ascent, all inputs <= n (accepted and rejected); oracle: equal result (value / error variant, token, location, user error). distinct_nontrivial = (grammar, input) pairs compared whose result is an error or a non-unit value", "pairs_nontrivial", &["pairs_compared", "pairs_nontrivial", "pairs_rejected_input"], run_c07),
-        mk("C14", "skeletons x all non-empty subsets of inlinable nonterminals (non-recursive, non-pub) x {named, fallible} actions, vs the same grammar without #[inline], whenever both are conflict-free; oracle: same value / user error, and the action log predicted by sem (inlined actions deferred to just before their host's action, left to right). distinct_nontrivial = (grammar, subset, input) cases with an inlined node in the tree", "cases_with_inlined_node", &["parses", "cases_with_inlined_node", "inline_variants"], run_c14),
+        mk("C14", "skeletons x all non-empty subsets of inlinable nonterminals (non-recursive, non-pub) x {all named, all fallible, two alternations of => and =>? alternatives} actions, vs the same grammar without #[inline], whenever both are conflict-free; oracle: same value / user error, and the action log predicted by sem (inlined actions deferred to just before their host's action, left to right). distinct_nontrivial = (grammar, subset, input) cases with an inlined node in the tree", "cases_with_inlined_node", &["parses", "cases_with_inlined_node", "inline_variants"], run_c14),
         mk("C17", "skeletons (incl. F-rec error-recovery ones) with =>? actions that fail on a marker token x all inputs, and every position k of an injected Err item in the token stream; oracle: exactly that error, tokens pulled, action log prefix, no recovery. distinct_nontrivial = runs that ended in a user error", "user_error_runs", &["parses", "user_error_runs", "injected_runs", "action_error_runs"], run_c17),
     ]
 }
@@ -146,6 +146,12 @@ fn mark_layout(g: &Cfg, layout: usize) -> Vec<Vec<DAlt>> {
                         1 => (Style::Named, (0..=k).map(|g| (g, false)).collect()),
                         2 => (Style::Named, vec![(0, true), (k, false)]),
                         3 => (Style::AngleAll, (0..=k).map(|g| (g, g % 2 == 0)).collect()),
+                        // `<l:@L> .. <r:@R>` around non-empty alternatives, `<r:@R> <l:@L>` (the end
+                        // of what precedes, then the start of what follows) in empty ones: the one
+                        // arrangement whose meaning inside an inlined empty alternative is fixed
+                        // by the statement
+                        5 if k == 0 => (Style::Named, vec![(0, false), (0, true)]),
+                        5 => (Style::Named, vec![(0, true), (k, false)]),
                         _ => (Style::Named, (0..=k).flat_map(|g| vec![(g, false), (g, true)]).collect()),
                     };
                     DAlt { style, marks }
@@ -214,7 +220,7 @@ fn items_for(prop: Prop, tier: Tier, f: &mut dyn FnMut(Item)) {
             });
             skeletons(s, &mut |g| {
                 let inl = inlinable(g);
-                for layout in 0..5 {
+                for layout in 0..6 {
                     let mut subsets: Vec<Vec<usize>> = vec![vec![]];
                     for &n in &inl {
                         subsets.push(vec![n]);
@@ -223,7 +229,10 @@ fn items_for(prop: Prop, tier: Tier, f: &mut dyn FnMut(Item)) {
                         subsets.push(inl.clone());
                     }
                     for sub in subsets {
-                        if !sub.is_empty() && layout >= 3 && tier == Tier::Quick {
+                        if !sub.is_empty() && (layout == 3 || layout == 4) && tier == Tier::Quick {
+                            continue;
+                        }
+                        if sub.is_empty() && layout == 5 {
                             continue;
                         }
                         group += 1;
@@ -239,16 +248,55 @@ fn items_for(prop: Prop, tier: Tier, f: &mut dyn FnMut(Item)) {
         }
         Prop::C14 => {
             let s = tier.pick(6, 7);
-            skeletons(s, &mut |g| {
+            // skeletons above the quick size bound in which ONE inlinable nonterminal with two
+            // alternatives occurs two or three times in an alternative (its actions then have an
+            // order among themselves)
+            let mut extra: Vec<Cfg> = vec![];
+            {
+                use Sym::{N, T};
+                let n1s: Vec<Vec<Vec<Sym>>> = vec![vec![vec![T(0)], vec![T(1)]], vec![vec![T(0)], vec![T(1), T(1)]], vec![vec![T(0), T(1)], vec![T(1)]]];
+                for n1 in &n1s {
+                    for n0 in [vec![N(1), N(1)], vec![N(1), T(0), N(1)], vec![N(1), N(1), N(1)], vec![T(1), N(1), N(1)]] {
+                        extra.push(Cfg { nts: 2, terms: 2, alts: vec![vec![n0], n1.clone()], pubs: vec![0] });
+                    }
+                }
+            }
+            let mut all: Vec<Cfg> = vec![];
+            skeletons(s, &mut |g| all.push(g.clone()));
+            for g in extra {
+                if !all.contains(&g) {
+                    all.push(g);
+                }
+            }
+            all.iter().for_each(&mut |g: &Cfg| {
                 let inl = inlinable(g);
                 if inl.is_empty() {
                     return;
                 }
-                for variant in 0..2 {
+                // variants: all infallible, all fallible, and the two alternations of `=>` and `=>?`
+                // alternatives within each nonterminal (inlined fallible and infallible actions
+                // side by side)
+                for variant in 0..4 {
                     group += 1;
-                    let with_fall = variant == 1;
+                    let with_fall = variant >= 1;
                     let mark_term = if with_fall { Some(g.terms as u8 - 1) } else { None };
-                    let alts: Vec<Vec<DAlt>> = g.alts.iter().map(|a| a.iter().map(|_| DAlt { style: if with_fall { Style::Fallible } else { Style::Named }, marks: vec![] }).collect()).collect();
+                    let alts: Vec<Vec<DAlt>> = g
+                        .alts
+                        .iter()
+                        .map(|a| {
+                            a.iter()
+                                .enumerate()
+                                .map(|(ai, _)| {
+                                    let fallible = match variant {
+                                        0 => false,
+                                        1 => true,
+                                        v => (ai + v) % 2 == 0,
+                                    };
+                                    DAlt { style: if fallible { Style::Fallible } else { Style::Named }, marks: vec![] }
+                                })
+                                .collect()
+                        })
+                        .collect();
                     for mask in 0u32..(1 << inl.len()) {
                         let mut inline = vec![false; g.nts];
                         for (i, &n) in inl.iter().enumerate() {
@@ -285,6 +333,16 @@ fn items_for(prop: Prop, tier: Tier, f: &mut dyn FnMut(Item)) {
                     }
                     let dgm = DG { skel: g.clone(), inline, alts, mark_term: Some(g.terms as u8 - 1), kinds: vec![] };
                     f(Item { dg: dgm, tag: format!("fall-rot{}", r), group, backends: both.clone(), with_injection: true });
+                }
+            });
+            // recovery shapes in which a reduction happens at the start of recovery (F-recx): the
+            // reduced production is fallible and fails on the marker token
+            crate::checks::core::enum_frecx(&mut |g| {
+                for mark in [0u8, g.terms as u8 - 1] {
+                    group += 1;
+                    let alts: Vec<Vec<DAlt>> = g.alts.iter().map(|a| a.iter().map(|rhs| DAlt { style: if rhs.contains(&Sym::Err) { Style::Anon } else { Style::Fallible }, marks: vec![] }).collect()).collect();
+                    let dgm = DG { skel: g.clone(), inline: vec![false; g.nts], alts, mark_term: Some(mark), kinds: vec![] };
+                    f(Item { dg: dgm, tag: format!("frecx-mark{}", mark), group, backends: vec![Codegen::Table], with_injection: true });
                 }
             });
             // error-recovery skeletons: `!` alternatives anonymous, the rest fallible; table only
@@ -485,6 +543,22 @@ fn process_chunk(ctx: &mut Ctx, prop: Prop, dir: &Path, items: &[Item], n: usize
             ctx.violation(&format!("{}-{}", cg.name(), o.kind.to_lowercase()), format!("{}: {}", head, o.short()), case(o));
             continue;
         }
+        // grammar-independent: once a `=>?` action has returned an error (it logs FAIL_MARK + id
+        // on its way out) nothing else may run and that error is the result
+        if matches!(prop, Prop::C17 | Prop::C14 | Prop::C07) {
+            if let Some(pos) = o.log.iter().position(|x| *x >= dg::FAIL_MARK) {
+                ctx.count("failing_action_runs");
+                let id = o.log[pos] - dg::FAIL_MARK;
+                let want = format!("act{}", id);
+                if pos + 1 != o.log.len() {
+                    ctx.violation(&format!("{}-actions-after-action-error", cg.name()), format!("{}: action {} returned an error but the log goes on: {:?}", head, id, o.log), case(o));
+                    continue;
+                } else if o.kind != "User" || o.user.as_ref() != Some(&want) {
+                    ctx.violation(&format!("{}-action-error-lost", cg.name()), format!("{}: action {} returned Err(User({})) but parse returned {}", head, id, want, o.short()), case(o));
+                    continue;
+                }
+            }
+        }
         match prop {
             Prop::C02 => {
                 if let Some(e) = &exp {
@@ -513,10 +587,15 @@ fn process_chunk(ctx: &mut Ctx, prop: Prop, dir: &Path, items: &[Item], n: usize
             }
             Prop::C06 => {
                 if let Some(e) = &exp {
-                    if e.has_inlined_empty && std::env::var("VERIF_C06_UNSKIP").is_err() {
-                        // spans of inlined nonterminals that derive nothing are unspecified
+                    let interior_ok = c.item.tag.starts_with("layout5") && dg::inlined_empty_only_interior(dgm, tree.as_ref().unwrap());
+                    if e.has_inlined_empty && !interior_ok && std::env::var("VERIF_C06_UNSKIP").is_err() {
+                        // spans of inlined nonterminals that derive nothing are unspecified, except
+                        // for `@R` then `@L` inside one that sits between two token-deriving symbols
                         ctx.count("skipped_inlined_empty");
                         continue;
+                    }
+                    if e.has_inlined_empty {
+                        ctx.count("inlined_empty_interior_judged");
                     }
                     ctx.count("accepted");
                     if e.nontrivial {
